@@ -324,11 +324,14 @@ fn parse_tuple_literal_or_parentheses(
             }
 
             let start_idx = tokens.idx;
-            exprs.push(parse_expression(tokens, id_gen, diagnostics));
-            assert!(
-                tokens.idx > start_idx,
-                "The parser should always make forward progress."
-            );
+            let expr = parse_expression(tokens, id_gen, diagnostics);
+            if tokens.idx <= start_idx {
+                // We couldn't parse an expression here, e.g. `(1,` at
+                // the end of the file. The error has already been
+                // reported.
+                break;
+            }
+            exprs.push(expr);
         }
 
         let close_paren = require_token(tokens, diagnostics, ")");
